@@ -209,6 +209,50 @@ def random_grammar(rng, ambiguous_ok=True):
     return G(rules, nt, shape=shape)
 
 
+def merge_family(rng):
+    """LALR-merge-heavy grammars: a few acyclic inner nonterminals with shared prefixes, referenced from
+    several contexts of the start rule with different leading terminals and different followers. States
+    reached through different contexts have equal cores and different lookaheads, so closure refresh,
+    state merging and follow propagation all matter (lookaheads arrive late through merged states)."""
+    k = rng.choice([3, 4, 4, 5])
+    inner = ["A", "B", "C", "D", "E"][:k]
+    nt = rng.choice([4, 5, 6, 7])
+    terms = list(TERMS[:nt])
+    rules = {}
+    # inner nonterminals: later ones may only refer to even later ones (acyclic), terminals shared
+    low = terms[:max(2, nt - 2)]
+    for i, n in enumerate(inner):
+        alts = []
+        for _ in range(rng.choice([1, 1, 2, 2, 3])):
+            ln = rng.choice([1, 2, 2, 3])
+            alt = []
+            for j in range(ln):
+                if i + 1 < k and rng.random() < 0.4:
+                    alt.append(rng.choice(inner[i + 1:]))
+                else:
+                    alt.append(rng.choice(low))
+            if alt not in alts:
+                alts.append(alt)
+        # a unit alternative to a later inner nonterminal creates closure-derived successors
+        if i + 1 < k and rng.random() < 0.4:
+            u = [rng.choice(inner[i + 1:])]
+            if u not in alts:
+                alts.append(u)
+        rules[n] = alts
+    salts = []
+    for _ in range(rng.choice([2, 3, 3, 4])):
+        lead = [rng.choice(terms) for _ in range(rng.choice([0, 1, 1, 2, 2]))]
+        mid = [rng.choice(inner[:max(2, k - 1)])]
+        if rng.random() < 0.25:
+            mid.append(rng.choice(inner))
+        tail = [rng.choice(terms)] if rng.random() < 0.85 else []
+        a = lead + mid + tail
+        if a not in salts:
+            salts.append(a)
+    allrules = [("S", salts)] + [(n, rules[n]) for n in inner]
+    return G(allrules, nt, shape="merge-family")
+
+
 def annotate(rng, g):
     """random priorities / associativities / nops / nopse on productions and terminals"""
     meta, tmeta = {}, {}
